@@ -371,6 +371,54 @@ def acquire_unknown_index(v):
     return n
 
 
+def acquire_around_rekey(v):
+    """An ACQUIRE is negotiated on an IKE_SA that still takes work: right after an IKE_SA rekey the old IKE_SA is still listed (REKEYED at the responder of the
+    rekey, DEL_AFTER_REKEY_IKE_SA_REQ_SENT at its initiator) in front of its successor - the ACQUIRE belongs to the successor (CREATE_CHILD_SA with its SPIs,
+    at once); while the daemon's own DELETE of the IKE_SA is outstanding there is nothing to re-use - a new IKE_SA is started."""
+    n = 0
+    for side in ('initiator of the rekey', 'responder of the rekey', 'being deleted'):
+        w = wd.World(seed=common.SEED, opts={'dpd': 5000, 'lifetime': 5000})
+        try:
+            w.establish('A')
+            a = w.sas('A')[0]
+            if side == 'being deleted':
+                a.delete_ike_sa_at = w.now - 1
+                w.timer('A', a, 'check_rekey_ike_sa_timer')            # DELETE(IKE_SA) sent, answer outstanding
+                e = 'A'
+            else:
+                a.rekey_ike_sa_at = w.now - 1
+                req = w.timer('A', a, 'check_rekey_ike_sa_timer')
+                a.rekey_ike_sa_at = w.now + 1e9
+                res = w.dispatch('B', req, 'A')                        # B: old IKE_SA REKEYED + successor
+                e = 'B'
+                if side == 'initiator of the rekey':
+                    w.dispatch('A', res, 'B')                          # A: old IKE_SA DEL_AFTER_REKEY_IKE_SA_REQ_SENT + successor (its DELETE is in flight)
+                    e = 'A'
+            states = [x.state.name for x in w.ctl[e].ike_sas]
+            succ = next((x for x in w.ctl[e].ike_sas if x.state.name == 'ESTABLISHED'), None)
+            if side != 'being deleted' and succ is None:
+                raise common.MachineryError(f'no successor after the IKE_SA rekey: {states}')
+            out = w.acquire(e, sport=0, dport=0)
+            n += 1
+            if out is None:
+                v.violation(f'ACQUIRE at the {side}: IKE_SAs {states} - nothing is sent (the ACQUIRE is parked on an IKE_SA that is on its way out and lost with it)',
+                            {'side': side, 'states': states}, signature={'component': 'acquire:closing', 'side': side})
+                continue
+            h = W.dec_header(bytes(out))
+            if side == 'being deleted':
+                ok = h['xchg'] == W.IKE_SA_INIT
+            else:
+                ok = h['xchg'] == W.CREATE_CHILD_SA and (h['spi_i'], h['spi_r']) == (bytes(succ.spi_i), bytes(succ.spi_r))
+            if not ok:
+                v.violation(f'ACQUIRE at the {side}: IKE_SAs {states} - the request (exchange {h["xchg"]}) does not go out on the IKE_SA that takes new work', {'side': side},
+                            signature={'component': 'acquire:closing-wrong', 'side': side})
+        except wd.Escape as ex:
+            v.violation(f'acquire around a rekey ({side}): {ex}', {}, signature={'component': 'acquire:closing-escape'})
+        finally:
+            w.close()
+    return n
+
+
 def cfg(max_steps):
     return ('SPECIFICATION Spec\nCONSTANTS\n Configs = {{1}, {1, 2}, {3}, {1, 2, 3}, {4, 5}, {1, 2, 3, 4, 5}}\n MaxSteps = %d\nINVARIANT AfterStart\nINVARIANT AcquireMaps\nPROPERTY AfterStop\n'
             'VIEW View\nCHECK_DEADLOCK FALSE\n' % max_steps)
@@ -402,7 +450,7 @@ def run(tier, replay=None):
         if err:
             v.violation(err, {'behaviour': [s[0] for s in steps[:done + 1]]}, signature={'component': 'spd', 'what': err.split(':')[0][:40]})
     n_acq = acquire_mapping(v, tier)
-    n_busy = acquire_while_busy(v) + acquire_unknown_index(v)
+    n_busy = acquire_while_busy(v) + acquire_unknown_index(v) + acquire_around_rekey(v)
     # Ike.tla CtlAcquire (queue on the IKE_SA with that peer / start one): every divergence right after an ACQUIRE in the replayed behaviours belongs here
     from checks import ikeprop
     ike_cov = dict(ikeprop.run(v, ['init'] if tier == 'quick' else ['init', 'estab', 'init3'], limit=700 if tier == 'quick' else None,
